@@ -153,6 +153,28 @@ pub fn check_scan(out: &mut Out, dc: &DocCtx, sg: &corpus::Sg, rules: &[RuleConf
         rules.len(), got.iter().map(|g| (g.0.clone(), g.1.len())).collect::<Vec<_>>(), want.iter().map(|g| (g.0.clone(), g.1.len())).collect::<Vec<_>>()),
         json!({"stream": "c01-scan", "lang": lang.to_string(), "source": dc.src, "what": what}));
     }
+    if separate {
+      // the separated view against the model's (fid 53): matches per rule, and the diffs in delivery order
+      // (skipped when two diffs start at the same offset: the order of equals is unspecified)
+      let starts: Vec<usize> = res.diffs.iter().map(|(_, nm)| nm.range().start).collect();
+      let mut uniq = starts.clone();
+      uniq.sort();
+      uniq.dedup();
+      if uniq.len() == starts.len() {
+        let by_id: std::collections::HashMap<usize, &N> = dc.nodes.iter().map(|n| (n.node_id(), n)).collect();
+        let wire_rules = Val::L(rules.iter().map(|r| {
+          let hits: Vec<Val> = dc.nodes.iter().filter(|n| r.matcher.match_node((*n).clone()).is_some()).map(|n| id(n)).collect();
+          vl![Val::str_bytes(&r.id), Val::b(r.fix.is_some()), kinds_val(&r.matcher.potential_kinds()), Val::L(hits)]
+        }).collect());
+        let mut ms: Vec<(String, Vec<usize>)> = res.matches.iter().map(|(r, nms)| (r.id.clone(), nms.iter().map(|nm| nm.get_node().node_id()).collect())).collect();
+        ms.sort();
+        let exp_m = Val::L(ms.iter().map(|(rid, ns)| vl![Val::str_bytes(rid), Val::L(ns.iter().map(|n| id(by_id[n])).collect())]).collect());
+        let exp_d = Val::L(res.diffs.iter().map(|(r, nm)| vl![Val::str_bytes(&r.id), id(by_id[&nm.get_node().node_id()])]).collect());
+        out.case(53, &vl![Val::str_bytes(dc.src), dc.td.val.clone(), wire_rules], &vl![exp_m, exp_d], &format!("scan, separated view {what}"));
+      } else {
+        out.count("tie53:skipped(two diffs start at one offset)");
+      }
+    }
     if !separate {
       let by_id: std::collections::HashMap<usize, &N> = dc.nodes.iter().map(|n| (n.node_id(), n)).collect();
       let wire_rules = Val::L(rules.iter().map(|r| {
